@@ -24,7 +24,7 @@ from pathlib import Path
 VERIF = Path(__file__).resolve().parent.parent
 REPO = Path(os.environ.get("PYODA_REPO", "/repo"))
 LEAN = VERIF / "lean"
-DRIVER = LEAN / ".lake" / "build" / "bin" / "driver"
+BIN = LEAN / ".lake" / "build" / "bin"
 EVIDENCE = VERIF / "evidence"
 REPLAYS = VERIF / "replays"
 FINDINGS = VERIF / "known_findings.json"
@@ -179,10 +179,11 @@ def _pin_prefix() -> list[str]:
     return ["taskset", "-c", str(k)] if Path("/usr/bin/taskset").exists() else []
 
 
-def model_eval(lines: list[str], timeout: float = 1800) -> list[str]:
-    """Evaluate op lines on the compiled Lean model; one reply per line."""
+def model_eval(lines: list[str], driver: str = "drv_elapsed", timeout: float = 1800) -> list[str]:
+    """Evaluate op lines on the compiled Lean model driver `driver`; one reply per line."""
     if not lines:
         return []
+    DRIVER = Path(os.environ.get("PYODA_DRIVER_" + driver.upper(), BIN / driver))
     if not DRIVER.exists():
         raise InfraError(f"model driver not built: {DRIVER}")
     for ln in lines:
@@ -226,11 +227,11 @@ def lean_sources_for(modules: list[str]) -> list[Path]:
     return list(seen.values())
 
 
-def run_proof(prop: str, proof_modules: list[str], theorems: list[str], thorough: bool) -> dict:
+def run_proof(prop: str, proof_modules: list[str], theorems: list[str], thorough: bool, drivers=("drv_elapsed",)) -> dict:
     """Build the proof modules, audit axioms of the named theorems, grep forbidden tokens."""
     res = {"modules": proof_modules, "theorems": {}, "ok": True, "problems": [], "checker_cmd": ""}
     t0 = time.time()
-    targets = proof_modules + ["driver"]
+    targets = proof_modules + list(drivers)
     cmd = ["lake", "build"] + targets
     res["checker_cmd"] = "cd lean && " + " ".join(cmd) + f" && lake env lean PyodaProofs/Audit/{prop}.lean"
     p = subprocess.run(cmd, cwd=LEAN, capture_output=True, text=True, timeout=3600)
@@ -283,7 +284,8 @@ def run_proof(prop: str, proof_modules: list[str], theorems: list[str], thorough
 # --------------------------------------------------------------------------------------
 
 class Ctx:
-    def __init__(self, prop: str, tier: str, seed: int):
+    def __init__(self, prop: str, tier: str, seed: int, driver: str = "drv_elapsed"):
+        self.driver = driver
         self.prop = prop
         self.tier = tier
         self.seed = seed
@@ -309,7 +311,7 @@ class Ctx:
 
     # ---- (K) -------------------------------------------------------------------------
     def correspond(self, suite: str, ops: list[str], impl, oracle=None, neighbours=None,
-                   nontrivial=None, exhaustive: bool = False, skip_model_prefixes=("!dom",)) -> list[dict]:
+                   nontrivial=None, exhaustive: bool = False, skip_model_prefixes=("!dom",), driver: str | None = None) -> list[dict]:
         """Diff model and implementation on `ops`.
         impl(tokens) -> canonical reply (exceptions are mapped by `guard`).
         oracle(tokens) -> None | failure dict: the property evaluated on the real code at that input.
@@ -323,7 +325,7 @@ class Ctx:
                 seen_local.add(o)
                 uniq.append(o)
         ops = uniq
-        model = model_eval(ops)
+        model = model_eval(ops, driver or self.driver)
         dis = []
         for op, m in zip(ops, model):
             toks = op.split(" ")
